@@ -150,7 +150,7 @@ def main() -> int:
     results = []
     with ThreadPoolExecutor(max_workers=NPROC) as ex:
         for s, r in zip(shards, ex.map(run_worker, shards)):
-            r["shard"] = {"fn": s["fn"], "env": s.get("env", {}), "desc": s.get("desc", "")}
+            r["shard"] = {"fn": s["fn"], "env": s.get("env", {}), "desc": s.get("desc", ""), "module": s["module"]}
             results.append(r)
             tag = f"{s['fn']} {s.get('env', {})}"
             if r["status"] == "confirmed" and r.get("twin") == "refuted":
@@ -183,14 +183,15 @@ def main() -> int:
             print(f"HARNESS-ERROR cannot parse counterexample: {r.get('detail', '')[:500]}", flush=True)
             continue
         call = r["call"]
-        res = run_replay(mod_name, call, env)
+        smod = r["shard"].get("module", mod_name)
+        res = run_replay(smod, call, env)
         r["replay"] = res
         if res["result"] is True:
             harness_error = True
             r["status"] = "inconclusive"
             print(f"HARNESS-ERROR counterexample does not reproduce natively: {call} env={env}", flush=True)
             continue
-        violations.append({"kind": "crosshair", "module": mod_name, "fn": r["shard"]["fn"], "call": call, "env": env,
+        violations.append({"kind": "crosshair", "module": smod, "fn": r["shard"]["fn"], "call": call, "env": env,
                            "explain": res.get("explain"), "exception": res.get("exception"), "traceback": res.get("traceback")})
 
     viol_paths = []
@@ -216,7 +217,7 @@ def main() -> int:
         fnname = r["shard"]["fn"]
         if tc and seen_fn.get(fnname, 0) < 2:
             seen_fn[fnname] = seen_fn.get(fnname, 0) + 1
-            res = run_replay(mod_name, tc, r["shard"]["env"], profile=True)
+            res = run_replay(r["shard"].get("module", mod_name), tc, r["shard"]["env"], profile=True)
             functions.update(res.get("functions", []))
             samples.append({"harness": fnname, "shard": r["shard"]["env"], "call": tc[:600], "native_result": res.get("result")})
             if res.get("result") is not True:
